@@ -116,6 +116,9 @@ pub enum COp {
     ListTowers,
     GetTowerInfo { t: u32 },
     GetReceipt { t: u32, c: u32 },
+    /// User commands that talk to the tower: getsubscriptioninfo / getappointment (the answer itself is not judged; a
+    /// connection error flags the tower temporarily unreachable).
+    AskTower { t: u32, c: Option<u32> },
     /// SIGKILL and restart on the same data directory.
     Kill,
 }
@@ -153,6 +156,7 @@ impl COp {
             COp::ListTowers => "listtowers",
             COp::GetTowerInfo { .. } => "gettowerinfo",
             COp::GetReceipt { .. } => "getreceipt",
+            COp::AskTower { .. } => "asktower",
             COp::Kill => "kill",
         }
     }
@@ -651,6 +655,10 @@ pub struct TowerModel {
     pub requests_at_misbehaviour: usize,
     /// log entries before this index belong to a previous life of the tower (before it was abandoned)
     pub ignore_before: usize,
+    /// a user command to this tower hit a connection error: the client then shows the tower as temporarily
+    /// unreachable whatever it was before (the open C13 finding `status_stuck...`); consequences of that flip are
+    /// not reported a second time
+    pub user_cmd_failed: bool,
 }
 
 struct Session<'a> {
@@ -927,7 +935,8 @@ impl<'a> Session<'a> {
                 // once a tower answers properly again, everything pending is delivered within the auto-retry delay plus one
                 // (jittered) back-off interval, plus the time the requests themselves take
                 let bound_ms = (cfg.auto_retry_delay as u64 + 2 * cfg.max_interval as u64 + 10) * 1000 + latency * (pending.len() as u64 + 4) * 2;
-                if now > h + bound_ms && !(status == "subscription_error" && bad_reg) && !view.is_none() {
+                let flipped = status == "temporary_unreachable" && self.towers[t].user_cmd_failed;
+                if now > h + bound_ms && !((status == "subscription_error" || flipped) && bad_reg) && !view.is_none() {
                     if !pending.is_empty() {
                         self.probe("liveness_checked");
                         self.report(
@@ -1185,6 +1194,7 @@ pub fn run_client(hist: &ClientHistory) -> ClientResult {
                 misbehaved_at: None,
                 requests_at_misbehaviour: 0,
                 ignore_before: 0,
+                user_cmd_failed: false,
             })
             .collect(),
         handled: BTreeMap::new(),
@@ -1431,6 +1441,12 @@ impl<'a> Session<'a> {
                     st.log[log_before..].iter().find(|r| r.endpoint == "register").map(|r| r.reply.clone())
                 };
                 let ok = r.as_ref().map(|v| v.get("result").is_some()).unwrap_or(false);
+                if served == Some(Reply::Refuse) {
+                    self.towers[*t as usize].user_cmd_failed = true;
+                }
+                if ok {
+                    self.towers[*t as usize].user_cmd_failed = false;
+                }
                 match (&r, &served) {
                     (None, _) => self.report("C14", "client_wedged", format!("registertower {t} got no answer")),
                     (Some(_), Some(Reply::Accept)) => {
@@ -1554,7 +1570,10 @@ impl<'a> Session<'a> {
                 let r = ld.call("retrytower", json!([id.to_string()]), 30).await;
                 let ok = r.as_ref().map(|v| v.get("result").is_some()).unwrap_or(false);
                 self.probe("manual_retry");
-                if ok && matches!(status.as_str(), "reachable" | "temporary_unreachable" | "misbehaving") {
+                // (a tower shown as temporarily unreachable only because a user command just failed keeps its idle retrier:
+                // waking that one up is the documented use of the command)
+                let flipped = status == "temporary_unreachable" && self.towers[*t as usize].user_cmd_failed;
+                if ok && !flipped && matches!(status.as_str(), "reachable" | "temporary_unreachable" | "misbehaving") {
                     self.report(
                         "C13",
                         "manual_retry_accepted_in_wrong_state",
@@ -1611,6 +1630,25 @@ impl<'a> Session<'a> {
                 let id = self.tower_id(*t);
                 let loc = hex::encode(self.locator_of(*c));
                 let _ = ld.call("getappointmentreceipt", json!([id.to_string(), loc]), 30).await;
+            }
+            COp::AskTower { t, c } => {
+                let id = self.tower_id(*t);
+                let log_before = self.net.st.lock().unwrap_or_else(|e| e.into_inner()).log.len();
+                let r = match c {
+                    None => ld.call("getsubscriptioninfo", json!([id.to_string()]), 60).await,
+                    Some(c) => ld.call("getappointment", json!([id.to_string(), hex::encode(self.locator_of(*c))]), 60).await,
+                };
+                if r.is_none() && !killed.load(Ordering::SeqCst) {
+                    self.report("C14", "client_wedged", format!("a user command asking tower {t} got no answer"));
+                }
+                let refused = {
+                    let st = self.net.st.lock().unwrap_or_else(|e| e.into_inner());
+                    st.log[log_before.min(st.log.len())..].iter().any(|r| r.tower == *t && r.reply == Reply::Refuse && r.endpoint != "add_appointment" && r.endpoint != "register")
+                };
+                if refused {
+                    self.towers[*t as usize].user_cmd_failed = true;
+                }
+                self.probe("user_command_to_tower");
             }
             COp::Kill => {
                 self.probe("kill");
